@@ -237,6 +237,10 @@ func (q *fq) nilTestOf(isV func(ssa.Value) bool) (ifi *ssa.If, nilSucc int, foun
 
 // cutEdge builds an EdgeCut removing one successor edge of an If.
 func cutEdge(ifi *ssa.If, succ int) an.EdgeCut {
+	if ifi == nil {
+		// the deciding branch was not found: nothing is cut, so "only through that edge" is not established
+		return func(*ssa.BasicBlock, int) bool { return false }
+	}
 	return func(b *ssa.BasicBlock, i int) bool { return b == ifi.Block() && i == succ }
 }
 
@@ -279,7 +283,21 @@ func cmpOf(b *ssa.BinOp, isSubject func(ssa.Value) bool) (token.Token, ssa.Value
 func isVal(v ssa.Value) func(ssa.Value) bool { return func(x ssa.Value) bool { return x == v } }
 
 func loadOfField(field string) func(ssa.Value) bool {
-	return func(v ssa.Value) bool { return an.IsLoadOfField(v, field) }
+	return func(v ssa.Value) bool {
+		if an.IsLoadOfField(v, field) {
+			return true
+		}
+		// a loop variable re-read from the field in the loop's init and post statements: every operand is such a read
+		if ph, ok := v.(*ssa.Phi); ok {
+			for _, e := range ph.Edges {
+				if !an.IsLoadOfField(e, field) {
+					return false
+				}
+			}
+			return len(ph.Edges) > 0
+		}
+		return false
+	}
 }
 
 // cellOfParam: the cell a captured parameter was spilled into.
@@ -588,4 +606,82 @@ func (c *Ctx) errPolarity(names ...string) {
 			q.undecided("ERR", "an observed error is not dropped", "no nil-test of an error value found in "+name)
 		}
 	}
+}
+
+// retTuple is one way a function can return: the values, and the instruction that stands for "this return was
+// chosen" in path queries (the return itself, or - when several returns of a helper were merged into one return whose
+// results are join phis - the jump that leaves the corresponding arm).
+type retTuple struct {
+	site ssa.Instruction
+	ret  *ssa.Return
+	vals []ssa.Value
+}
+
+// returnTuples splits a return whose results are phis of one join block into one tuple per incoming edge that the
+// branches dominating the return allow (`if done { return result, err }` after a helper that returned
+// (done, result, err)).
+func (c *Ctx) returnTuples(r *ssa.Return) []retTuple {
+	var join *ssa.BasicBlock
+	for _, v := range r.Results {
+		ph, ok := v.(*ssa.Phi)
+		if !ok {
+			continue
+		}
+		if join != nil && ph.Block() != join {
+			return []retTuple{{r, r, r.Results}}
+		}
+		join = ph.Block()
+	}
+	if join == nil || !join.Dominates(r.Block()) {
+		return []retTuple{{r, r, r.Results}}
+	}
+	for _, pb := range join.Preds {
+		if join.Dominates(pb) {
+			return []retTuple{{r, r, r.Results}}
+		}
+	}
+	ks := c.P.FeasibleEdges(join, r)
+	if ks == nil {
+		for k := range join.Preds {
+			ks = append(ks, k)
+		}
+	}
+	var out []retTuple
+	for _, k := range ks {
+		pred := join.Preds[k]
+		t := retTuple{site: pred.Instrs[len(pred.Instrs)-1], ret: r}
+		for _, v := range r.Results {
+			if ph, ok := v.(*ssa.Phi); ok {
+				t.vals = append(t.vals, ph.Edges[k])
+			} else {
+				t.vals = append(t.vals, v)
+			}
+		}
+		out = append(out, t)
+	}
+	return out
+}
+
+// storeTuple: one arm of a store whose value is a join phi (site = the jump that leaves the arm), or the store itself.
+type storeTuple struct {
+	site ssa.Instruction
+	val  ssa.Value
+}
+
+func storeTuples(st *ssa.Store) []storeTuple {
+	ph, ok := st.Val.(*ssa.Phi)
+	if !ok || !ph.Block().Dominates(st.Block()) {
+		return []storeTuple{{st, st.Val}}
+	}
+	for _, pb := range ph.Block().Preds {
+		if ph.Block().Dominates(pb) {
+			return []storeTuple{{st, st.Val}}
+		}
+	}
+	var out []storeTuple
+	for k, e := range ph.Edges {
+		pred := ph.Block().Preds[k]
+		out = append(out, storeTuple{pred.Instrs[len(pred.Instrs)-1], e})
+	}
+	return out
 }
